@@ -163,6 +163,24 @@ example :
     WF e = true ∧ cap e = 5 ∧ Requires e 0 = true ∧ Requires e 2 = true ∧ Requires e 1 = false := by
   simp [WF, cap, Requires, adapterCap, invEnablerCap, capTable, addInverse, sumCap, chainCap, allOps, TIMES, ADJOINT_TIMES]
 
+/-- **sums advertise only forward and adjoint application**, whatever their summands advertise; consequently the inverse adapter
+    of a sum advertises at most the two inverse modes -/
+theorem sum_no_inverse_modes (ops : List (Op K D)) (neg : List Bool) (h : WF (Op.sum ops neg) = true) (s : Nat) (hs : s < 4)
+    (hinv : (s &&& 2) ≠ 0) :
+    (((cap (Op.sum ops neg)) &&& (1 <<< s)) != 0) = false ∧
+    (((cap (Op.adapter (Op.sum ops neg) INVERSE_BIT)) &&& (1 <<< (s ^^^ 2))) != 0) = false := by
+  have hw : WF (Op.adapter (Op.sum ops neg) INVERSE_BIT) = true := by
+    simp only [WF, Bool.and_eq_true, decide_eq_true_eq]
+    exact ⟨by decide, by simpa [WF] using h⟩
+  have hx : s ^^^ 2 < 4 := xor_lt s hs 2 (by decide)
+  have hxx : (s ^^^ 2) ^^^ INVERSE_BIT = s := by revert s; decide
+  refine ⟨?_, ?_⟩
+  · rw [cap_spec _ h s hs]
+    simp [Requires, hinv]
+  · rw [cap_spec _ hw _ hx]
+    simp only [Requires, hxx]
+    simp [hinv]
+
 end capability
 
 /-! ### Part 2 — dense action of the operator classes (Mathlib matrices over any star field, any index type)
@@ -1068,6 +1086,178 @@ theorem mkSumU_sound (hre : ∀ c, isReal c = true → re c = c) (fuel : Nat) (o
       intro l; induction l <;> simp [*]
     rw [den_sum_ssum, hz]
 
+
+/-! ### Part 6 — `_flip_modes` of every operator (chains included) and InversionEnabler, all four modes -/
+
+def isChainOp : Op K (X → K) → Bool | .chain _ => true | _ => false
+
+/-- shape invariants of operator objects as the constructors produce them: transformations are 0..3, adapters never wrap chains,
+    chains are non-empty and flat; block-diagonal operators are excluded as chain members / adapter operands (their merging needs a
+    block structure on `X`) -/
+def goodF : Op K (X → K) → Bool
+  | .diag _ _ t _ => decide (t < 4)
+  | .adapter o t => decide (t < 4) && goodF o && !isChainOp o && !isBlock o
+  | .chain ops => !ops.isEmpty && (ops.map (fun x => goodF x && !isBlock x && !isChainOp x)).all id
+  | _ => true
+
+theorem mprod_reverse (r : Bool) (l : List (Matrix X X K)) : mprod r l.reverse = mprod (!r) l := by
+  cases r <;> simp [mprod]
+
+theorem revOf_xor : ∀ s, s < 4 → (revOf (s ^^^ 1) = !revOf s) ∧ (revOf (s ^^^ 2) = !revOf s) ∧ (revOf (s ^^^ 3) = revOf s) := by
+  decide
+
+theorem chainFlipReversed_eval : ∀ t, t < 4 → t ≠ 0 →
+    (chainFlipReversed.getD (t - 1) false = true ↔ (t = 1 ∨ t = 2)) ∧
+    (chainFlipReversed.getD (t - 1) false = false ↔ t = 3) := by decide
+
+theorem chainFlatten_nochain (l : List (Op K (X → K))) (h : ∀ x ∈ l, isChainOp x = false) : chainFlatten l = l := by
+  unfold chainFlatten
+  induction l with
+  | nil => rfl
+  | cons x xs ih =>
+    simp only [List.flatMap_cons]
+    rw [ih (fun y hy => h y (by simp [hy]))]
+    have := h x (by simp)
+    cases x <;> simp_all [isChainOp]
+
+/-- flipping a non-chain, non-block member of a chain yields a non-chain operator that satisfies `okC` -/
+theorem flip_member (x : Op K (X → K)) (t : Nat) (ht : t < 4) (hx : goodF x = true) (hb : isBlock x = false)
+    (hc : isChainOp x = false) : isChainOp (OpAlgebra.flip S x t) = false ∧ okC (OpAlgebra.flip S x t) = true := by
+  cases x with
+  | chain l => simp [isChainOp] at hc
+  | blockdiag d es => simp [isBlock] at hb
+  | adapter o t0 =>
+    simp only [goodF, Bool.and_eq_true, decide_eq_true_eq, Bool.not_eq_true'] at hx
+    obtain ⟨⟨⟨ht0, _⟩, hoc⟩, hob⟩ := hx
+    unfold OpAlgebra.flip
+    by_cases h0 : (adapterFlip t0 t == 0) = true
+    · simp only [h0, if_true]
+      refine ⟨hoc, ?_⟩
+      cases o <;> simp_all [okC, diagOK, isBlock, goodF, isChainOp]
+    · simp [h0, isChainOp, okC, diagOK, isBlock]
+  | diag dm d t0 dt =>
+    have ht0 : t0 < 4 := by simpa [goodF] using hx
+    have : diagFlip t0 t < 4 := by rw [diagFlip_eval t0 ht0 t ht]; exact xor_lt4 t0 ht0 t ht
+    simp [OpAlgebra.flip, isChainOp, okC, diagOK, isBlock, this]
+  | scaling d c dt => simp [OpAlgebra.flip, isChainOp, okC, diagOK, isBlock]
+  | leaf a b c d => unfold OpAlgebra.flip; split <;> simp [isChainOp, okC, diagOK, isBlock]
+  | idEntry d => unfold OpAlgebra.flip; split <;> simp [isChainOp, okC, diagOK, isBlock]
+  | null a b => unfold OpAlgebra.flip; split <;> simp [isChainOp, okC, diagOK, isBlock]
+  | sum a b => unfold OpAlgebra.flip; split <;> simp [isChainOp, okC, diagOK, isBlock]
+  | sandwich a b c => unfold OpAlgebra.flip; split <;> simp [isChainOp, okC, diagOK, isBlock]
+  | invEnabler a => unfold OpAlgebra.flip; split <;> simp [isChainOp, okC, diagOK, isBlock]
+
+
+theorem goodF_chain (ops : List (Op K (X → K))) (h : goodF (Op.chain ops) = true) :
+    ops ≠ [] ∧ ∀ x ∈ ops, goodF x = true ∧ isBlock x = false ∧ isChainOp x = false := by
+  simp only [goodF, Bool.and_eq_true, Bool.not_eq_true', List.isEmpty_eq_false_iff, List.all_map, List.all_eq_true,
+    Function.comp, id] at h
+  refine ⟨h.1, fun x hx => ?_⟩
+  have := h.2 x hx
+  exact ⟨this.1.1, this.1.2, this.2⟩
+
+/-- **`_flip_modes` preserves the action for every operator, chains included, in all four modes**: mode `s` of
+    `op._flip_modes(t)` is mode `s xor t` of `op` (chains: the members are flipped and the list is reversed exactly for the
+    adjoint and the inverse, kept for adjoint-inverse, then handed to `ChainOperator.make`) -/
+theorem flip_sound (hre : ∀ c, isReal c = true → re c = c) (o : Op K (X → K)) (t : Nat) (ht : t < 4) (hg : goodF o = true)
+    (s : Nat) (hs : s < 4) :
+    den S (OpAlgebra.flip S o t) (1 <<< s) = den S o (1 <<< (s ^^^ t)) := by
+  fun_induction OpAlgebra.flip S o t generalizing s with
+  | case1 o t0 t nt h0 =>
+    have ht0 : t0 < 4 := by simp only [goodF, Bool.and_eq_true, decide_eq_true_eq] at hg; exact hg.1.1.1
+    have := flip_adapter_sound isReal re blocks leaf o t0 t s ht0 ht hs
+    unfold OpAlgebra.flip at this
+    have h0' : adapterFlip t0 t = 0 := by simpa using h0
+    simpa [h0'] using this
+  | case2 o t0 t nt h0 =>
+    have ht0 : t0 < 4 := by simp only [goodF, Bool.and_eq_true, decide_eq_true_eq] at hg; exact hg.1.1.1
+    have := flip_adapter_sound isReal re blocks leaf o t0 t s ht0 ht hs
+    unfold OpAlgebra.flip at this
+    have h0' : ¬ adapterFlip t0 t = 0 := by simpa using h0
+    simpa [h0'] using this
+  | case3 d c dt t =>
+    have := flip_scaling_sound isReal re blocks leaf d c dt t s ht hs
+    unfold OpAlgebra.flip at this
+    exact this
+  | case4 dm d t0 dt t =>
+    have ht0 : t0 < 4 := by simpa [goodF] using hg
+    have := flip_diag_sound isReal re blocks leaf dm d t0 dt t s ht0 ht hs
+    unfold OpAlgebra.flip at this
+    exact this
+  | case5 ops t h0 =>
+    have : t = 0 := by simpa using h0
+    subst this; simp
+  | case6 ops t h0 hrev ih =>
+    have ht0 : t ≠ 0 := by simpa using h0
+    have ht12 : t = 1 ∨ t = 2 := ((chainFlipReversed_eval t ht ht0).1).mp hrev
+    obtain ⟨hne, hmem⟩ := goodF_chain ops hg
+    have hF : FUEL = 63 + 1 := rfl
+    have hL : ∀ y ∈ ops.reverse.map (OpAlgebra.flip S · t), isChainOp y = false ∧ okC y = true := by
+      intro y hy
+      simp only [List.mem_map, List.mem_reverse] at hy
+      obtain ⟨x, hx, rfl⟩ := hy
+      exact flip_member isReal re blocks leaf x t ht (hmem x hx).1 (hmem x hx).2.1 (hmem x hx).2.2
+    rw [hF, mkChainU_sound isReal re blocks leaf hre 63 _ s hs (by simpa using hne)
+      (by intro y hy l hl; have := (hL y hy).1; rw [hl] at this; simp [isChainOp] at this)
+      (by rw [chainFlatten_nochain _ (fun y hy => (hL y hy).1)]; exact fun y hy => (hL y hy).2),
+      den_chain_mprod isReal re blocks leaf ops (s ^^^ t) (xor_lt4 s hs t ht) hne]
+    rw [List.map_map, List.map_reverse, mprod_reverse]
+    have hr : revOf (s ^^^ t) = !revOf s := by
+      rcases ht12 with rfl | rfl
+      · exact (revOf_xor s hs).1
+      · exact (revOf_xor s hs).2.1
+    rw [hr]
+    congr 1
+    apply List.map_congr_left
+    intro x hx
+    exact ih x hx ht (hmem x hx).1 s hs
+  | case7 ops t h0 hrev ih =>
+    have ht0 : t ≠ 0 := by simpa using h0
+    have ht3 : t = 3 := ((chainFlipReversed_eval t ht ht0).2).mp hrev
+    obtain ⟨hne, hmem⟩ := goodF_chain ops hg
+    have hF : FUEL = 63 + 1 := rfl
+    have hL : ∀ y ∈ ops.map (OpAlgebra.flip S · t), isChainOp y = false ∧ okC y = true := by
+      intro y hy
+      simp only [List.mem_map] at hy
+      obtain ⟨x, hx, rfl⟩ := hy
+      exact flip_member isReal re blocks leaf x t ht (hmem x hx).1 (hmem x hx).2.1 (hmem x hx).2.2
+    rw [hF, mkChainU_sound isReal re blocks leaf hre 63 _ s hs (by simpa using hne)
+      (by intro y hy l hl; have := (hL y hy).1; rw [hl] at this; simp [isChainOp] at this)
+      (by rw [chainFlatten_nochain _ (fun y hy => (hL y hy).1)]; exact fun y hy => (hL y hy).2),
+      den_chain_mprod isReal re blocks leaf ops (s ^^^ t) (xor_lt4 s hs t ht) hne]
+    rw [List.map_map]
+    have hr : revOf (s ^^^ t) = revOf s := by subst ht3; exact (revOf_xor s hs).2.2
+    rw [hr]
+    congr 1
+    apply List.map_congr_left
+    intro x hx
+    exact ih x hx ht (hmem x hx).1 s hs
+  | case8 o t _ _ _ _ h0 =>
+    have : t = 0 := by simpa using h0
+    subst this; simp
+  | case9 o t _ _ _ _ h0 =>
+    exact den_adapter isReal re blocks leaf o t s ht hs
+
+
+/-- **InversionEnabler**: in a mode the operand does not advertise the code solves `invop · r = x` with
+    `invop = op._flip_modes(_ilog[invmode])` applied in mode TIMES; that operator acts as the operand's `invmode`
+    (= mode `s xor INVERSE`), which is what the model inverts -/
+theorem invEnabler_invop_sound (hre : ∀ c, isReal c = true → re c = c) (o : Op K (X → K)) (hg : goodF o = true)
+    (s : Nat) (hs : s < 4) :
+    den S (OpAlgebra.flip S o (ilogN (invEnablerInvMode (1 <<< s)))) TIMES = den S o (invEnablerInvMode (1 <<< s)) ∧
+    (¬ invEnablerDelegates (cap o) (1 <<< s) = true →
+      den S (Op.invEnabler o) (1 <<< s) = (den S o (1 <<< (s ^^^ INVERSE_BIT)))⁻¹) := by
+  have h1 : invEnablerInvMode (1 <<< s) = 1 <<< (s ^^^ 2) := by revert s; decide
+  have h2 : ilogN (1 <<< (s ^^^ 2)) = s ^^^ 2 := by revert s; decide
+  have h3 : s ^^^ 2 < 4 := xor_lt4 s hs 2 (by decide)
+  refine ⟨?_, ?_⟩
+  · rw [h1, h2]
+    have := flip_sound isReal re blocks leaf hre o (s ^^^ 2) h3 hg 0 (by decide)
+    simpa [TIMES] using this
+  · intro hnd
+    rw [den]
+    simp only [hnd, if_false, h1]
+    rfl
 
 /-- non-vacuity of the hypotheses of `mkChainU_sound`: a diagonal with pending adjoint, a nested chain with a scaling, a leaf -/
 example : (∀ o ∈ chainFlatten [Op.diag 0 (fun _ : Fin 2 => (2 : ℚ)) 1 0, Op.chain [Op.scaling 0 (3 : ℚ) 0, Op.leaf 7 15 0 0]],
